@@ -179,9 +179,16 @@ def body_options(ctx):
 CHAIN = ['lit', '%(a)s', '%(b)s', '%(c)s', '%(undefined)s', 'pre-%(a)s-%(b)s']
 
 
+LITERALS = ['lit', 'C:\\new\\table\\1\\g<0>\\', '{0}{x}{}', '$x ${y} `z`', '100% %d']
+
+
 def body_chain(ctx):
     """Chains of variables referring to other variables (substitution to a fixpoint)."""
+    # the text of a literal value: substitution must copy it verbatim whatever characters it holds (characters that are
+    # special to regular-expression templates, str.format, %-formatting or the shell)
+    literal = ctx.choice('literal_text', LITERALS)
     vals = {k: ctx.choice('val_' + k, CHAIN) for k in ('a', 'b', 'c')}
+    vals = {k: v.replace('lit', literal) for k, v in vals.items()}
     where = {k: ctx.choice('layer_' + k, ['global', 'stage', 'component']) for k in ('a', 'b', 'c')}
     doc = {'platforms': ['default'],
            'variables': {'default': {'global': {}, 'stages': {0: {}}}},
@@ -221,14 +228,16 @@ def body_chain(ctx):
     try:
         got = concrete.get_component_configuration((0, 'c'), raw=False, include_default=True)['command']['arguments']
         gerr = None
-    except errors.FlowIRException as e:
+    except Exception as e:           # any exception of the code under test is an observation, judged below
         got, gerr = None, e
     detail = {'values': vals, 'where': where, 'got': got, 'want': want, 'error': repr(gerr)}
     if werr is None:
         ctx.check(gerr is None and got == want, 'variable chains are substituted until no reference remains', detail)
         ctx.check('%(' not in (got or ''), 'no reference to a defined variable remains', detail)
-        if vals['a'] != 'lit':
+        if vals['a'] != literal:
             ctx.witness('chain_resolved')
+        if literal != 'lit' and literal in want:
+            ctx.witness('special_characters_copied_verbatim')
     else:
         ctx.witness('chain_undefined')
         ctx.check(isinstance(gerr, errors.FlowIRVariableUnknown),
@@ -253,7 +262,7 @@ def main(tier, seed, only=None):
     rep.bounds = {'variables': 'one variable, presence in 14 layer slots (default/P/Q global+stage, two user files global/stage, '
                                'component, override P/Q), platform in {default, P}',
                   'options': 'resourceRequest.numberProcesses in 6 blueprint layers + 3 invisible ones, value int / numeric string / variable reference',
-                  'chains': '3 variables, each one of %s, each defined at global/stage/component level' % CHAIN}
+                  'chains': '3 variables, each one of %s, each defined at global/stage/component level; the literal text is one of %s' % (CHAIN, LITERALS)}
     rep.outside = ['cyclic variable definitions (a: %(a)s ends in RecursionError in the real code; excluded by assumption)', 'values other than tokens / small ints (no symbolic strings)', 'DOSINI packages', 'array-index variable access',
                    'options other than resourceRequest.numberProcesses (same override_object code path)']
     rep.assumptions = ['read_user_variables stubbed to return in-memory dictionaries (file parsing is not the subject)']
@@ -261,7 +270,7 @@ def main(tier, seed, only=None):
                        'solver variables; each path builds a real FlowIRConcrete and queries it; oracle = fold of the defined layers '
                        'in the documented order')
     rep.required_witnesses = ['user_variables_patched', 'undefined_variable_reported', 'three_layers_competing',
-                              'three_blueprint_layers', 'chain_resolved', 'chain_undefined']
+                              'three_blueprint_layers', 'chain_resolved', 'chain_undefined', 'special_characters_copied_verbatim']
     params = [{'kind': 'variables', 'name': 'variables'}, {'kind': 'options', 'name': 'options'},
               {'kind': 'chain', 'name': 'chain'}]
     if only:
